@@ -33,6 +33,12 @@ CHECKS = {
  "C12": ("exploration", "round-trip run-time monitor: accepted tuples vs dump after two reopen cycles, over all value kinds and kind pairs",
          "held on every generated relation of the run apart from the listed known findings (mixed-kind columns, Null/Timestamp/NaN/inf/empty vectors, vector dimension mixes)",
          "trusted: Value's bitwise Eq; rejected inserts are outside the property", "3/C12"),
+ "C14": ("exploration", "differential run-time monitor: engine with interleaved maintenance and hostile persistence configuration vs twin engine without",
+         "held on every generated history/configuration of the run: after every step and after a clean restart, the maintained engine M and the plain twin P hold the same facts and answer a join query alike",
+         "trusted: twin P (same code, default config, no maintenance) as reference", "3/C14"),
+ "C32": ("exploration", "model-based run-time monitor: set model of two relations checked after every write, reports parsed from API returns and handler messages",
+         "held on every generated history of the run: dumps are duplicate-free and equal the set model after every step; insert/delete/conditional-delete/update reports equal the model's counts",
+         "trusted: the harness's own evaluation of 9 condition/update templates", "3/C32"),
 }
 NOT_YET = "monitor not built yet in this round (design in DESIGN.md section 3); not claimed until a check exists"
 
